@@ -833,9 +833,11 @@ def canonicalise(sources: dict[str, str]) -> tuple[Program, dict]:
         return pre0, report
     trees0 = {m.path: m.tree for m in pre0.modules.values()}
     from . import canon_decl
+    report['private_properties_inlined'] = canon_decl.inline_private_properties(trees0)
     report['private_mixins_flattened'] = canon_decl.flatten_private_mixins(trees0)
     report['private_context_managers_desugared'] = canon_decl.desugar_private_context_managers(trees0)
     report['callable_classes_to_closures'] = canon_decl.callable_classes_to_closures(trees0)
+    report['method_objects_dissolved'] = canon_decl.dissolve_method_objects(trees0)
     report['forwarding_adapters_dropped'] = canon_decl.drop_forwarding_adapters(trees0)
     report['private_holders_dissolved'] = canon_decl.dissolve_private_holders(trees0)
     report['dataclass_inits_written'] = sum(canon_decl.desugar_dataclasses(t) for t in trees0.values())
@@ -844,6 +846,8 @@ def canonicalise(sources: dict[str, str]) -> tuple[Program, dict]:
     for tree in trees0.values():
         for n in ast.walk(tree):
             if isinstance(n, (ast.FunctionDef, ast.AsyncFunctionDef)):
+                report['filter_generators_unfolded'] = report.get('filter_generators_unfolded', 0) + unfold_filter_generators(n)
+                report['items_loops_to_keys'] = report.get('items_loops_to_keys', 0) + items_loops_to_keys(n)
                 report['isinstance_reraise_split'] = report.get('isinstance_reraise_split', 0) + split_isinstance_reraise(n)
                 report['suppress_desugared'] = report.get('suppress_desugared', 0) + desugar_suppress(n)
                 report['pops_split'] += split_pops(n)
@@ -1163,6 +1167,138 @@ def fold_setdefault_forms(fn_node: ast.AST) -> int:
                 node.iter = ast.copy_location(ast.Subscript(value=it.func.value, slice=it.args[0], ctx=ast.Load()), it)
             return node
     T().visit(fn_node)
+    if n:
+        ast.fix_missing_locations(fn_node)
+    return n
+
+
+# ----------------------------------------------------------------------------------------
+# P12: a lazily filtered generator feeding one loop  ->  the guard at the top of the loop body
+#      `todo = (t for t in ts if c(t))` ... `for t in todo: BODY`   ->   `for t in ts: if not c(t): continue; BODY`
+
+_NEG_OPS = {ast.In: ast.NotIn, ast.NotIn: ast.In, ast.Is: ast.IsNot, ast.IsNot: ast.Is, ast.Eq: ast.NotEq, ast.NotEq: ast.Eq}
+
+
+def _negate(e: ast.AST) -> ast.AST:
+    """`not e` in its simplest spelling (`not (a not in b)` is `a in b`)."""
+    if isinstance(e, ast.UnaryOp) and isinstance(e.op, ast.Not):
+        return e.operand
+    if isinstance(e, ast.Compare) and len(e.ops) == 1 and type(e.ops[0]) in _NEG_OPS:
+        return ast.copy_location(ast.Compare(left=e.left, ops=[_NEG_OPS[type(e.ops[0])]()], comparators=e.comparators), e)
+    return ast.UnaryOp(op=ast.Not(), operand=e)
+
+
+def _flat_names(t: ast.AST):
+    if isinstance(t, ast.Name):
+        return [t.id]
+    if isinstance(t, ast.Tuple) and all(isinstance(e, ast.Name) for e in t.elts):
+        return [e.id for e in t.elts]
+    return None
+
+
+def _identity_elt(g: ast.GeneratorExp) -> bool:
+    """The generator yields its own loop variable(s) unchanged: `(x for x in ...)`, `((k, v) for k, v in ...)`."""
+    a, b = _flat_names(g.generators[0].target), _flat_names(g.elt)
+    return a is not None and a == b
+
+
+def unfold_filter_generators(fn_node: ast.AST) -> int:
+    n = 0
+    gens: dict[str, tuple] = {}
+    for owner, fld, blk in list(_blocks(fn_node)):
+        for st in blk:
+            if isinstance(st, ast.Assign) and len(st.targets) == 1 and isinstance(st.targets[0], ast.Name) and isinstance(st.value, ast.GeneratorExp):
+                g = st.value
+                if len(g.generators) == 1 and _identity_elt(g) and not g.generators[0].is_async:
+                    gens[st.targets[0].id] = (st, blk, g)
+    loops = [x for x in walk_local(fn_node) if isinstance(x, ast.For)]
+    for lp in loops:
+        g = None
+        holder = None
+        if isinstance(lp.iter, ast.GeneratorExp):
+            ge = lp.iter
+            if len(ge.generators) == 1 and _identity_elt(ge):
+                g = ge
+        elif isinstance(lp.iter, ast.Name) and lp.iter.id in gens:
+            name = lp.iter.id
+            loads = [x for x in walk_local(fn_node) if isinstance(x, ast.Name) and x.id == name and isinstance(x.ctx, ast.Load)]
+            stores = [x for x in walk_local(fn_node) if isinstance(x, ast.Name) and x.id == name and isinstance(x.ctx, ast.Store)]
+            if len(loads) == 1 and len(stores) == 1:
+                holder, hblk, g = gens[name]
+                # the loop must follow the definition in the same block (nothing in between can observe the difference: the
+                # generator is not started before the loop)
+                if lp not in hblk or hblk.index(lp) < hblk.index(holder):
+                    g = None
+        if g is None:
+            continue
+        gen = g.generators[0]
+        gnames = _flat_names(gen.target)
+        lnames = _flat_names(lp.target)
+        if gnames is None or lnames is None or len(gnames) != len(lnames):
+            continue
+        ren = {a: ast.Name(id=b, ctx=ast.Load()) for a, b in zip(gnames, lnames) if a != b}
+        guards = []
+        for c in gen.ifs:
+            c2 = _Subst(ren).visit(copy.deepcopy(c)) if ren else copy.deepcopy(c)
+            guard = ast.If(test=_negate(c2), body=[ast.Continue()], orelse=[])
+            ast.copy_location(guard, lp)
+            ast.copy_location(guard.body[0], lp)
+            guards.append(guard)
+        lp.iter = gen.iter
+        lp.body = guards + lp.body
+        if holder is not None:
+            hblk.remove(holder)
+        n += 1
+    if n:
+        ast.fix_missing_locations(fn_node)
+    return n
+
+
+# ----------------------------------------------------------------------------------------
+# P13: `for k, v in list(D.items())[:n]: BODY`  ->  `for k in list(D.keys())[:n]: v = D[k]; BODY`
+#      (D an attribute chain whose entries are not re-assigned in the function; a snapshot of the items and a snapshot of
+#      the keys followed by a look-up then see the same values)
+
+def items_loops_to_keys(fn_node: ast.AST) -> int:
+    n = 0
+    for lp in [x for x in walk_local(fn_node) if isinstance(x, ast.For)]:
+        if not (isinstance(lp.target, ast.Tuple) and len(lp.target.elts) == 2 and all(isinstance(e, ast.Name) for e in lp.target.elts)):
+            continue
+        it = lp.iter
+        if isinstance(it, ast.Name):
+            # a snapshot held in a local that only this loop reads
+            defs = [a for a in walk_local(fn_node) if isinstance(a, ast.Assign) and len(a.targets) == 1 and isinstance(a.targets[0], ast.Name)
+                    and a.targets[0].id == it.id]
+            loads = [x for x in walk_local(fn_node) if isinstance(x, ast.Name) and x.id == it.id and isinstance(x.ctx, ast.Load)]
+            if len(defs) != 1 or len(loads) != 1:
+                continue
+            it = defs[0].value
+        path = []
+        cur = it
+        sl = None
+        if isinstance(cur, ast.Subscript) and isinstance(cur.slice, ast.Slice):
+            sl = cur
+            cur = cur.value
+        wrap = None
+        if isinstance(cur, ast.Call) and isinstance(cur.func, ast.Name) and cur.func.id in ('list', 'tuple') and len(cur.args) == 1 and not cur.keywords:
+            wrap = cur
+            cur = cur.args[0]
+        if not (isinstance(cur, ast.Call) and isinstance(cur.func, ast.Attribute) and cur.func.attr == 'items' and not cur.args and not cur.keywords):
+            continue
+        d = cur.func.value
+        if not (isinstance(d, ast.Attribute) and dotted(d) is not None) or (wrap is None and sl is None):
+            continue          # only snapshots: a live items() loop is left as it is
+        base = dotted(d)
+        if any(isinstance(x, ast.Subscript) and isinstance(x.ctx, ast.Store) and dotted(x.value) == base for x in walk_local(fn_node)):
+            continue
+        k, v = lp.target.elts
+        cur.func.attr = 'keys'
+        lp.target = ast.copy_location(ast.Name(id=k.id, ctx=ast.Store()), lp.target)
+        asg = ast.Assign(targets=[ast.Name(id=v.id, ctx=ast.Store())],
+                         value=ast.Subscript(value=copy.deepcopy(d), slice=ast.Name(id=k.id, ctx=ast.Load()), ctx=ast.Load()))
+        ast.copy_location(asg, lp)
+        lp.body.insert(0, asg)
+        n += 1
     if n:
         ast.fix_missing_locations(fn_node)
     return n
